@@ -1157,13 +1157,13 @@ func (db *DB) WriteDatabaseAt(ctx context.Context, f *os.File, data []byte, offs
 		return fmt.Errorf("database write must be exactly one page (%d bytes)", db.pageSize)
 	}
 
-	// Track dirty pages if we are using a rollback journal. This isn't
-	// necessary with the write-ahead log (WAL) since pages are appended
-	// instead of overwritten. We can determine the dirty set at commit-time.
+	// Track dirty pages for the rollback journal. With the write-ahead log
+	// (WAL) the database file is only written by checkpoints and the dirty set
+	// is determined at commit-time instead. The pages are tracked anyway as
+	// the transaction that leaves WAL mode rewrites page 1 under a rollback
+	// journal while the database is still recorded as being in WAL mode.
 	pgno := uint32(offset/int64(db.pageSize)) + 1
-	if db.Mode() == DBModeRollback {
-		db.dirtyPageSet[pgno] = struct{}{}
-	}
+	db.dirtyPageSet[pgno] = struct{}{}
 
 	// Perform write on handle.
 	if err := db.writeDatabasePage(f, pgno, data, false); err != nil {
@@ -1812,6 +1812,9 @@ func (db *DB) CommitWAL(ctx context.Context) (err error) {
 	db.wal.offset = endOffset
 	db.wal.chksum1 = chksum1
 	db.wal.chksum2 = chksum2
+
+	// Pages written to the database file up to here came from checkpoints.
+	db.dirtyPageSet = make(map[uint32]struct{})
 
 	// Update transaction for database.
 	pos = ltx.Pos{
